@@ -572,7 +572,7 @@ type job struct {
 
 func Run(c *verdict.Ctx) int {
 	c.Level = "exploration"
-	c.Rule = "a case is (chain index, height, perturbation | proposal mode | replica step) or (real-mempool scenario, proposal number): a call of the real ValidateBlock / CreateProposalBlock / ApplyBlock whose outcome is compared with the reference predicate, the size limits or the second replica; distinct by that triple; non-trivial because every chain has its own validator set, powers, commit flags and timestamps, parameters and churn"
+	c.Rule = "a case is (chain index, height, perturbation | proposal mode | replica step) or (real-mempool scenario, proposal number) or (vote-set scenario, height): a call of the real ValidateBlock / CreateProposalBlock / ApplyBlock whose outcome is compared with the reference predicate, the size limits or the second replica; distinct by that triple; non-trivial because every chain has its own validator set, powers, commit flags and timestamps, parameters and churn"
 	c.Assume("SHA-256, ed25519 (standard library) and the generated protobuf marshallers are shared with the implementation",
 		"the weighted-median convention is the one stated in DESIGN.md C06 (earliest time reaching floor(T'/2) of the signed power, nil votes included)",
 		"evidence admissibility is not judged here: the installed evidence pool admits everything, only the hash binding and the byte limit are compared",
@@ -603,6 +603,9 @@ func Run(c *verdict.Ctx) int {
 		for i, m := 0, c.N(144, 3000); i < m; i++ {
 			jobsList = append(jobsList, job{"realpool", i})
 		}
+		for i, m := 0, c.N(120, 4000); i < m; i++ {
+			jobsList = append(jobsList, job{"voteset", i})
+		}
 		for i := 0; i < n; i++ {
 			if i%40 != 4 {
 				jobsList = append(jobsList, job{"chain", i})
@@ -628,8 +631,12 @@ func Run(c *verdict.Ctx) int {
 							c.HarnessError("%s case %d panicked: %v\n%s", j.stream, j.idx, rec, buf)
 						}
 					}()
-					if j.stream == "realpool" {
+					switch j.stream {
+					case "realpool":
 						runRealPool(c, j.idx)
+						return
+					case "voteset":
+						runVoteSet(c, j.idx)
 						return
 					}
 					r := c.Rand("chain", j.idx)
@@ -648,6 +655,9 @@ func Run(c *verdict.Ctx) int {
 		evidencePanicProbe(c)
 		if c.Counter("realpool.blocks") == 0 {
 			c.HarnessError("the real-mempool stage produced no proposer block")
+		}
+		if c.Counter("votesetcommit.commits made") == 0 {
+			c.HarnessError("the vote-set commit stage made no commit")
 		}
 	}
 	min := 10000
